@@ -35,8 +35,8 @@ class C06 : public Check
 public:
     const char *id() { return "C06"; }
     const char *opName(int k) { return yName(k); }
-    int quickRuns() { return 8000; }
-    int quickSeconds() { return 60; }
+    int quickRuns() { return 50000; }
+    int quickSeconds() { return 90; }
     int thoroughSeconds() { return 900; }
     const char *rule()
     {
